@@ -1,4 +1,5 @@
 import DeapModel.Core.Fitness
+import DeapModel.Core.FitClass
 import Driver.Proto
 /-! Protocol handler for C01 (Fitness). -/
 namespace DriverC01
@@ -17,7 +18,45 @@ def mkCFit (weights : List Rat) (vs cvs : String) : Option (CFit Rat) := do
   let cv ← parseCv cvs
   some ⟨f.wvalues, cv⟩
 
+
+/-! #### `fam`: a history over a family of related fitness classes (Core/FitClass.lean) -/
+
+def parseBox (s : String) : Option Box :=
+  if s = "t" then some .tuple else if s = "l" then some .list else if s = "a" then some .ndarray
+  else if s = "d" then some .deque else none
+
+def parseWOp (s : String) : Option (WOp Rat) :=
+  match s.splitOn ":" with
+  | ["class", p, w] => do
+      let parent ← if p = "b" then some none else (parseNat p).map some
+      let weights ← if w = "none" then some none else (parseList parseRat w).map some
+      some (.defclass ⟨weights, parent⟩)
+  | ["new", slot, c, box, vs] => do
+      some (.new (← parseNat slot) (← parseNat c) ⟨← parseBox box, ← parseList parseRat vs⟩)
+  | ["set", slot, box, vs] => do some (.set (← parseNat slot) ⟨← parseBox box, ← parseList parseRat vs⟩)
+  | ["del", slot] => (parseNat slot).map .del
+  | ["get", slot] => (parseNat slot).map .get
+  | ["str", slot] => (parseNat slot).map .str
+  | ["cmp", i, j] => do some (.cmp (← parseNat i) (← parseNat j))
+  | ["dom", i, j, ia, ib] => do
+      some (.dom (← parseNat i) (← parseNat j) (← parseList parseNat ia) (← parseList parseNat ib))
+  | ["clone", i, k] => do some (.clone (← parseNat i) (← parseNat k))
+  | _ => none
+
+def showOut : Out Rat → String
+  | .ok => "ok"
+  | .err => "err"
+  | .values w v ok => showList showRat w ++ "|" ++ showList showRat v ++ "|" ++ showBool ok
+  | .shown v => "s|" ++ showList showRat v
+  | .bits l => showBits l
+
+def handleFam (ops : List String) : String :=
+  match ops.mapM parseWOp with
+  | some os => " ".intercalate ((wrun (World.empty : World Rat) os).2.map showOut)
+  | none => "bad-op"
+
 def handle : List String → String
+  | "fam" :: ops => handleFam ops
   | ["cmp", ws, a, b] =>
     match (do let w ← parseList parseRat ws; let x ← mkFit w a; let y ← mkFit w b; pure (x, y)) with
     | some (x, y) => showBits [lt x y, le x y, gt x y, ge x y, eq x y, ne x y]
